@@ -4,6 +4,7 @@ import (
 	"bufio"
 	"fmt"
 	"strconv"
+	"strings"
 	"testing"
 	"testing/synctest"
 
@@ -14,7 +15,7 @@ import (
 type family struct {
 	name                                                       string
 	wFeedCall, wFeedNote, wFeedBatch, wFeedInvalid, wFeedReply int
-	wFeedRaw                                                   int
+	wFeedRaw, wFeedBytes                                       int
 	wGate, wCancel, wStop, wPush, wCbCtx, wFeedErr, wRestart   int
 	wBuiltin, wSendFault                                       int
 	idPool                                                     []string
@@ -26,7 +27,7 @@ type family struct {
 var families = map[string]family{
 	"c01": {name: "c01", wFeedCall: 6, wFeedNote: 3, wFeedBatch: 8, wFeedInvalid: 4, wFeedReply: 1, wFeedRaw: 1, wGate: 12, wBuiltin: 1,
 		idPool: []string{"1", "2", "3", `"a"`, "4", "5"}, Ks: []int{1, 2, 3, 8}, push: []bool{false, false, true}, builtin: []bool{true, false}, steps: 18},
-	"c02": {name: "c02", wFeedCall: 3, wFeedNote: 2, wFeedBatch: 8, wFeedInvalid: 12, wFeedReply: 5, wFeedRaw: 4, wGate: 10, wBuiltin: 1, wPush: 3, wCbCtx: 1,
+	"c02": {name: "c02", wFeedCall: 3, wFeedNote: 2, wFeedBatch: 8, wFeedInvalid: 12, wFeedReply: 5, wFeedRaw: 4, wFeedBytes: 14, wGate: 10, wBuiltin: 1, wPush: 3, wCbCtx: 1,
 		idPool: []string{"1", "2", `"a"`, "0", "-1", "1.5", "1e3", `""`, `"\u0031"`}, Ks: []int{1, 3}, push: []bool{false, true}, builtin: []bool{true, false}, steps: 20},
 	"c03": {name: "c03", wFeedCall: 5, wFeedNote: 8, wFeedBatch: 6, wFeedInvalid: 1, wGate: 12, wCancel: 1, wPush: 1,
 		idPool: []string{"1", "2", "3", "4", "5", "6"}, Ks: []int{1, 2, 4, 8}, push: []bool{false, true}, builtin: []bool{true}, steps: 20},
@@ -113,6 +114,84 @@ func (s *scen) invalidMember() member {
 	}
 }
 
+// variantMember builds one member text from the per-field variant product (absent / valid / each invalid
+// type / null per field), with a unique token inside params so that a handler that does run is identified.
+func (s *scen) variantMember() string {
+	g := s.g
+	var fs []string
+	add := func(k, v string) {
+		if v != "" {
+			fs = append(fs, `"`+k+`":`+v)
+		}
+	}
+	ver := pick(g, []string{`"2.0"`, `"2.0"`, `"2.0"`, `"2.0"`, `"2.0"`, `"2.0"`, "", `"1.0"`, "2", "null", `"2.00"`})
+	id := pick(g, []string{"", "", "1", "2", "-1", "1.5", "1e2", `"a"`, `""`, "null", "true", "[1]", `{"x":1}`, `"\u0031"`, "0"})
+	method := pick(g, []string{`"g"`, `"g"`, `"g"`, `"g"`, `"g"`, "", `"nope"`, `"rpc.x"`, `"rpc.serverInfo"`, `""`, "7", "null", `["g"]`})
+	tok := s.newTok()
+	params := pick(g, []string{"[" + tok + "]", "[" + tok + "]", "[" + tok + "]", `{"t":` + tok + `}`, "", "null", tok, `"s` + tok + `"`, "true"})
+	if method == `"g"` && (params == "" || params == "null") {
+		// a member that may run a handler carries its token (the harness identifies handlers by their params)
+		params = "[" + tok + "]"
+	}
+	add("jsonrpc", ver)
+	add("id", id)
+	add("method", method)
+	add("params", params)
+	if g.chance(1, 10) {
+		add("result", pick(g, []string{"1", "null", `{"r":1}`}))
+	}
+	if g.chance(1, 10) {
+		add("error", pick(g, []string{`{"code":1,"message":"m"}`, "null", `{"code":"x"}`, "7"}))
+	}
+	if g.chance(1, 8) {
+		add(pick(g, []string{"x", "jsonrpc2", "Id", "METHOD"}), "1")
+	}
+	if g.chance(1, 12) && len(fs) > 0 {
+		fs = append(fs, fs[g.intn(len(fs))]) // a duplicate key: the last one wins
+	}
+	// field order is irrelevant to the parser model; shuffle
+	for i := len(fs) - 1; i > 0; i-- {
+		j := g.intn(i + 1)
+		fs[i], fs[j] = fs[j], fs[i]
+	}
+	switch g.intn(30) {
+	case 0:
+		return pick(g, []string{"7", `"str"`, "null", "true", "[]", "[1]"})
+	}
+	return "{" + strings.Join(fs, ",") + "}"
+}
+
+// variantRecord is a whole record for the byte-level family: a member, a batch of members, or a mutation.
+func (s *scen) variantRecord() string {
+	g := s.g
+	var rec string
+	if g.chance(1, 3) {
+		n := 1 + g.intn(4)
+		var ms []string
+		for i := 0; i < n; i++ {
+			ms = append(ms, s.variantMember())
+		}
+		rec = "[" + strings.Join(ms, ",") + "]"
+	} else {
+		rec = s.variantMember()
+	}
+	switch g.intn(12) {
+	case 0: // truncate
+		if len(rec) > 1 {
+			rec = rec[:1+g.intn(len(rec)-1)]
+		}
+	case 1: // flip one byte
+		b := []byte(rec)
+		b[g.intn(len(b))] ^= byte(1 << uint(g.intn(7)))
+		rec = string(b)
+	case 2: // surrounding whitespace
+		rec = " \n" + rec + "\t "
+	case 3: // trailing garbage
+		rec = rec + pick(g, []string{"x", "{}", ",", "]"})
+	}
+	return rec
+}
+
 func (s *scen) replyMember() member {
 	// ids of callbacks are decimal numbers counting from 1; hit, miss and collide with request ids
 	id := strconv.Itoa(1 + s.g.intn(4))
@@ -195,6 +274,7 @@ func (s *scen) step() {
 				r.feedRaw("empty", pick(g, []string{"[]", " [ ] "}))
 			}
 		}},
+		{f.wFeedBytes, func() { r.feedBytes(s.variantRecord()) }},
 		{f.wCancel, func() { r.callCancel(pick(g, append([]string{"99"}, f.idPool...))) }},
 		{f.wStop, func() { r.callStop() }},
 		{f.wPush, func() {
